@@ -8,7 +8,7 @@
 //!         wrapper 0 = LZMA2Writer, 1 = XZWriter (no pre-filter, no block size)
 //!   purem <opts> <member_size> <data> <opsA> <opsB>      LZIPWriter with a member size (implementation only)
 //!   lzexp <opts> <expected|none> <seed> <ops>            LZMAWriter with header: declared size vs written size
-//!   huge1 <opts> <n>                                     one write() of n zero bytes (n >= 2^31), thorough tier only
+//!   huge1 <opts> <n>                                     one write() of n zero bytes (n >= 2^31) into a refusing sink
 //! ops: comma separated; a number = write() of that many bytes of the data, `f` = flush(); finish()
 //! follows (lzexp: `F` = finish, explicit).
 //! Observation: OK <SAME|DIFF> <summary A> <summary B>: SAME = output bytes and symbol traces of
@@ -402,20 +402,30 @@ pub fn exec(a: &[&str]) -> (String, String) {
             compare(&o, &Kind::Lzip { member: Some(member) }, &data, &ops_a, &ops_b, true, false)
         }
         "huge1" => {
-            // one write() of a 2 GiB slice (zero pages: never committed): fill_window must clamp the
-            // slice length in usize (repaired defect: `input.len() as i32` was negative)
+            // one write() of a 2 GiB slice (zero pages: never committed) into a sink that refuses
+            // every byte: fill_window must clamp the slice length in usize (repaired defect:
+            // `input.len() as i32` was negative and the slice copy panicked); the write ends with the
+            // sink's error as soon as the range coder emits its first byte
             let o = Opts::parse(a[1]);
             let n: usize = a[2].parse().unwrap();
             let v = vec![0u8; n];
+            struct Refuse;
+            impl Write for Refuse {
+                fn write(&mut self, _b: &[u8]) -> std::io::Result<usize> {
+                    Err(std::io::Error::new(std::io::ErrorKind::Other, "refused"))
+                }
+                fn flush(&mut self) -> std::io::Result<()> {
+                    Ok(())
+                }
+            }
             let r = guarded(|| {
-                let mut w = LZMAWriter::new(std::io::sink(), &o.lzma(None), false, true, None)?;
+                let mut w = LZMAWriter::new(Refuse, &o.lzma(None), false, true, None)?;
                 let k = w.write(&v)?;
-                w.finish()?;
                 Ok(k)
             });
             match r {
-                Outcome::Ok(k) => (format!("OK {k}"), if k == n { "ok".into() } else { format!("FAIL write() accepted {k} of {n} bytes") }),
-                Outcome::Err(c) => (format!("ERR {c}"), format!("FAIL writer error kind {c}")),
+                Outcome::Ok(k) => (format!("OK {k}"), "FAIL the sink's error was swallowed".into()),
+                Outcome::Err(c) => (format!("ERR {c}"), if c == 6 { "ok".into() } else { format!("FAIL error kind {c} instead of the sink's") }),
                 Outcome::Panic(m) => ("PANIC".into(), format!("FAIL writer panics: {}", &m[..m.len().min(100)])),
             }
         }
@@ -637,7 +647,7 @@ pub fn gen(rng: &mut Rng, tier: &str, dist: &mut Dist) -> Vec<String> {
     // large cases: the window fills up and moves (buf_size = keep_before + keep_after + dict/2 + 256 KiB),
     // LZMA2 chunk limits, uncompressed fallback with a small dictionary after a move
     let big: &[(&str, usize)] = if thorough {
-        &[("random", 800_000), ("mixed", 1_200_000), ("text", 1_500_000), ("runs", 3_000_000), ("copyfar", 700_000)]
+        &[("random", 600_000), ("mixed", 800_000), ("text", 900_000), ("runs", 2_600_000), ("copyfar", 600_000)]
     } else {
         &[("random", 420_000), ("mixed", 500_000), ("runs", 2_300_000)]
     };
@@ -673,10 +683,8 @@ pub fn gen(rng: &mut Rng, tier: &str, dist: &mut Dist) -> Vec<String> {
         dist.bump(&format!("big.{class}.lzma1"));
         cmds.push(format!("pure1 {} {} none {} {} {}", o1.to_string(), rng.below(5), hexd, ops_to_string(&one), ops_to_string(&b)));
     }
-    if thorough {
-        dist.bump("regress.huge_slice");
-        cmds.push("huge1 3,0,2,4096,32,0,0,4 2147483648".to_string());
-    }
+    dist.bump("regress.huge_slice");
+    cmds.push("huge1 3,0,2,4096,32,0,0,4 2147483648".to_string());
     // regression class of the repaired defect (repo fix "LZMA2 uncompressed fallback reaches before
     // the window when the parser has read ahead"): small dictionary, normal mode, a nearly full
     // incompressible chunk that ends inside matchable data right after the window has moved
